@@ -19,7 +19,9 @@ the problem classes.
 
 """
 
-from qubovert.utils import Conversions, PUBOMatrix
+from qubovert.utils import (
+    Conversions, PUBOMatrix, solve_qubo_bruteforce
+)
 
 
 __all__ = 'Problem',
@@ -244,7 +246,13 @@ class Problem(Conversions):
         kwargs = kwargs.copy()
         all_solutions = kwargs.pop("all_solutions", False)
         qubo = self.to_qubo(*args, **kwargs)
-        sol = qubo.solve_bruteforce(all_solutions)
+        # a variable whose coefficients all vanish is missing from ``qubo``;
+        # enumerate all ``num_binary_variables`` labels nevertheless, so that
+        # ``convert_solution`` gets a complete assignment.
+        Q = dict(qubo)
+        for i in range(self.num_binary_variables):
+            Q.setdefault((i,), 0)
+        sol = solve_qubo_bruteforce(Q, all_solutions)[1]
         if all_solutions:
             return [self.convert_solution(x) for x in sol]
         return self.convert_solution(sol)
